@@ -464,7 +464,8 @@ def check_indent(ctx, case):
 
 
 def program_st():
-    text = st.sampled_from(["x", "line one\nline two", "a\n\nb", "é中", "", "tail\n"])
+    text = st.sampled_from(["x", "line one\nline two", "a\n\nb", "é中", "", "tail\n", "  ", "first\n \nsecond", "head\n\t\ntail",
+                            "top\n\u00a0\u3000\nend"])  # round 9: non-empty lines made only of blanks are prefixed too
     write = st.fixed_dictionaries({"write": st.sampled_from(["out", "err"]), "text": text})
     rais = st.just({"raise": True})
     unscoped = st.fixed_dictionaries({"set": st.sampled_from(["io", "out", "err"]), "mode": st.sampled_from(["set", "inc"]),
